@@ -20,7 +20,8 @@ R3 = [
   ">= 2 workers, a worker other than the highest-index one dies, the saturated highest-index worker crosses its limit before the replacement arrives",["C03"],
   "C03 replays the fault corpus and fault-flavoured random schedules (first run: caught by C08 only)"),
  ("C04",1,"actix-server","WorkerAvailable handler merged into `if !paused && handle exists { set bit; accept_all }`: a notification handled while paused is lost for good",
-  "a worker reaches its limit, pause, the worker releases during the pause, resume",[],""),
+  "a worker reaches its limit, pause, the worker releases during the pause, resume",["C04"],
+  "corpus schedules saturate / pause / release during the pause / resume / rotate (first run: caught by C03 only)"),
  ("C04",2,"actix-server","ServerWorker::poll also sends the availability notification on the Unavailable -> Available transition (notify_available ignores the counter): a saturated worker is marked available without a release",
   "a worker at its limit whose service readiness goes Pending and back (or restarts) while still saturated, a client waiting",[],""),
  ("C05",1,"actix-server","process_timeout rewritten as a for loop that clears the deadline only in the 'expired while paused' branch: a listener re-registered after its back-off keeps the expired deadline and the next Pause skips it",
@@ -28,9 +29,11 @@ R3 = [
  ("C05",2,"actix-server","deregister_all keeps deadlines, Resume registers only sockets without one, process_timeout keeps a deadline that expires while paused: a deadline expiring during a pause strands the listener",
   "EMFILE on a listener, pause before the deadline, the pause outlasts it, resume; then a NEW client",[],""),
  ("C06",1,"actix-server","handle_cmd(Stop) awaits the workers' replies also for a forced stop (the `if graceful` is gone)",
-  "a worker that has not processed Stop because its thread is inside a non-yielding connection handler",[],""),
+  "a worker that has not processed Stop because its thread is inside a non-yielding connection handler",["C06"],
+  "ServerStop.tla `busy` (worker threads blocked by a non-yielding handler) + e2e forced-stop scenarios with blocked worker threads"),
  ("C06",2,"actix-server","the completion is sent before the accept thread is joined",
-  "the accept thread behind when the completion is sent (work queued ahead of Stop or descheduled), a client connecting right after completion",[],""),
+  "the accept thread behind when the completion is sent (work queued ahead of Stop or descheduled), a client connecting right after completion",["C06"],
+  "e2e scenarios that hold the accept thread (tracing subscriber on its own log line) and connect at the instant the stop future resolves: T_C06_NotListeningAfterCompletion"),
  ("C07",1,"actix-server","check_readiness flattened into a match on (status, poll): `(Unavailable, Ready(_))` treats an Err of a service still marked Unavailable as ready: no restart",
   "the failure on a poll where the service is Unavailable (first poll after creation, or right after Pending) and not repeating",[],""),
  ("C07",2,"actix-server","StreamService caches an unconsumed Ready(Ok) in a Cell: poll_ready returns early until the next call: a later Pending / Err of a service that is not being called is never seen",
@@ -70,7 +73,8 @@ R3 = [
  ("C17",2,"local-waker","register(): will_wake fast path whose fall-through arm merges 'slot empty' with 'slot held a different waker' and returns false for both",
   "two different wakers registered back to back",[],""),
  ("C18",1,"actix-tls","impl Clone for the OpenSSL Acceptor drops the configured handshake_timeout (Self::new)",
-  "a non-default set_handshake_timeout and the service created from a clone of the acceptor",[],""),
+  "a non-default set_handshake_timeout and the service created from a clone of the acceptor",["C18"],
+  "every other acceptor service is built from a clone of a clone of the configured acceptor (a server clones its factories)"),
  ("C18",2,"actix-tls","rustls TlsStream::poll_write flushes after the inner write and returns Pending when the flush is Pending although bytes were accepted: the caller retries and the payload is duplicated",
   "transport back-pressure in the middle of a write, a reader that looks past the expected length",[],""),
  ("C19",1,"actix-tls","TcpConnectorFut::new keeps the remaining queue only `if addrs.len() > 1` (checked after the pop): with exactly one address left it is never dialled",
@@ -84,7 +88,7 @@ R3 = [
   "serde Deserialize (visit_byte_buf / visit_bytes deserializers) among the fallible constructors of the C20 driver"),
 ]
 res = {}
-for f in sorted(glob.glob("/tmp/r3/run-*.log")) + (["/tmp/r3/recheck.log"] if os.path.exists("/tmp/r3/recheck.log") else []):
+for f in sorted(glob.glob("/tmp/r3/run-*.log")) + sorted(glob.glob("/tmp/r4/run-zr3recheck*.log")):
     for l in open(f):
         m = re.match(r"\[(C\d\d)-q(\d)\] check (C\d\d): exit (\d)\s*(.*)", l)
         if m:
